@@ -73,6 +73,10 @@ CHECKS['C19'] = pure('ParseContract.tla / ParseGen.tla', 'Exhaustive for item li
 CHECKS['C14'] = pure('KeysContract.tla / KeysGen.tla', 'Exhaustive within bounds: all pairs of call signatures (positional tuples 0..2, keyword lists of 0..2 names in every order, two '
     'equality classes concretised as equal-but-distinct objects) run sequentially and concurrently, and all call/evict sequences of length 1..4 over 3 keys on a caller-supplied MutableMapping '
     'and bounded LRU(1)/LRU(2) (LRU semantics modelled in the spec); random longer signatures; clauses C14_Shares, C14_NeverCross, C14_ValueOfKey, C14_OneRecompute.')
+CHECKS['C15'] = comp('BatcherContract / BufferContract / KeysContract instantiated with the option values given + FormsTrace.tla', 'The same timed programs are run on the '
+    'decorator-with-options form, the direct form and the class for every option (one at a time and jointly); TLC validates each trace against the component contract instantiated with the values '
+    'given (C15_OptionEffective_*) and checks the traces of the forms equal event for event (C15_FormsEquivalent); one decorated batcher is driven from 1..3 loops successively and concurrently and '
+    'each per-loop projection must satisfy BatcherContract on its own (C15_PerLoopIndependent_*).')
 PENDING_REASON = 'check not built yet in this session (planned: see DESIGN.md §5); not a claim that the technique cannot apply'
 PENDING = {('C%02d' % i): PENDING_REASON for i in range(1, 21)}
 ENGINES = [
